@@ -117,9 +117,26 @@ fn identity_program(c: &mut mwv_core::choice::Choices) -> Vec<mwv_core::sx::Sx> 
     mwv_core::sx::read_all(&src).expect("identity template parses")
 }
 
+/// call/cc whose receiver is itself a continuation (the coroutine-switch idiom) or call/cc.
+fn receiver_program(c: &mut mwv_core::choice::Choices) -> Vec<mwv_core::sx::Sx> {
+    let switch = *c.pick(&["(call/cc rk)", "(rswap rk)", "(apply call/cc (list rk))", "((lambda (f) (f rk)) call/cc)"][..]);
+    let wrap = *c.pick(&["(list 'back @)", "(car (list @))", "(begin @)", "(let ((v @)) (if (procedure? v) 'a-procedure v))"][..]);
+    let src = format!(
+        "(define rk #f) (define rn 0) (define (rswap k) (call/cc k)) \
+         (define rr (call/cc (lambda (k) (set! rk k) 'first))) \
+         (procedure? (call/cc call/cc)) \
+         (if (< rn 1) (begin (set! rn (+ rn 1)) {wrapped}) 'done) \
+         (list (procedure? rr) rn) \
+         (if (< rn 2) (begin (set! rn (+ rn 1)) (if (procedure? rr) (rr 'again) 'not-a-procedure)) 'done) \
+         (list (procedure? rr) rn)",
+        wrapped = wrap.replace('@', switch)
+    );
+    mwv_core::sx::read_all(&src).expect("receiver template parses")
+}
+
 fn identity_case(ctx: &Ctx, bytes: &[u8]) -> Outcome {
     let mut c = mwv_core::choice::Choices::new(bytes);
-    let forms = identity_program(&mut c);
+    let forms = if c.chance(64) { receiver_program(&mut c) } else { identity_program(&mut c) };
     let mut feats = std::collections::BTreeSet::new();
     feats.insert("object-identity-through-continuation");
     check(ctx, &forms, &feats)
@@ -141,7 +158,7 @@ impl Prop for C05 {
         Some(("program_cc", 20_000, 1536))
     }
     fn rule(&self) -> &'static str {
-        "sessions from the typed program generator with call/cc productions (escape, normal return, storing k in a global, counter-guarded re-entry 0-3 times from the same form, procedures, loops, for-each callbacks and later top-level forms), plus deep captures (up to 600 pending calls) re-entered from later forms and after a failed evaluation, and mutable objects passed through a continuation from tail and non-tail positions and then mutated through one name and read through the other; each run in the reference interpreter and four VMs (fresh, second fresh, polluted, and one with collections forced at pseudo-random instructions and after every form). Non-trivial: in the reference run a continuation is re-entered after its call/cc returned with at least one already-evaluated operand pending at capture, or is invoked from a later top-level form; distinct by program text."
+        "sessions from the typed program generator with call/cc productions (escape, normal return, storing k in a global, counter-guarded re-entry 0-3 times from the same form, procedures, loops, for-each callbacks and later top-level forms), plus deep captures (up to 600 pending calls) re-entered from later forms and after a failed evaluation, and mutable objects passed through a continuation from tail and non-tail positions and then mutated through one name and read through the other, and call/cc applied to a stored continuation or to call/cc itself; each run in the reference interpreter and four VMs (fresh, second fresh, polluted, and one with collections forced at pseudo-random instructions and after every form). Non-trivial: in the reference run a continuation is re-entered after its call/cc returned with at least one already-evaluated operand pending at capture, or is invoked from a later top-level form; distinct by program text."
     }
     fn assumptions(&self) -> Vec<&'static str> {
         vec![
